@@ -298,7 +298,11 @@ func (g *G) intLeaf() *Node {
 	case 1:
 		return N("false")
 	}
-	return Int(g.smallInt("intLit"))
+	n := Int(g.smallInt("intLit"))
+	if n.I >= 0 && g.intn(16, "leadingZeros") == 0 {
+		n.Q = 1 + g.intn(2, "nZeros") // 007, 010, 08: decimal whatever the zeros in front
+	}
+	return n
 }
 
 func (g *G) intExpr(d int) *Node {
